@@ -52,14 +52,35 @@ static inline uint32_t *c13_u32(const uint64_t *v, size_t n) {
  * skips its analysis and aborts or crashes.  That defect is not what C13/C16
  * are about, so the stack below the caller is zeroed before every adaptive
  * encode: residue 0 never equals a count >= 1 and the encoder behaves as
- * documented.  (Pure function of nothing; no effect on a repaired tree.) */
+ * documented.  (Pure function of nothing; no effect on a repaired tree.)
+ *
+ * The typical residue is deterministic: the previous adaptive FOR encode from
+ * the same call depth leaves its own count in that very slot, so two
+ * consecutive encodes of equal length reuse the first array's min/width.  A
+ * painter with a local array does not reach the top of the callee's frame
+ * (its own saved registers and redzones land there), hence the words below
+ * the stack pointer are cleared directly. */
+#if defined(__x86_64__)
+static __attribute__((noinline)) __attribute__((no_sanitize("address")))
+__attribute__((no_sanitize("undefined"))) void
+c13_paint_stack(void) {
+    __asm__ volatile("lea -8192(%%rsp), %%rdi\n\t"
+                     "mov $1024, %%ecx\n\t"
+                     "xor %%eax, %%eax\n\t"
+                     "rep stosq\n\t"
+                     :
+                     :
+                     : "rdi", "rcx", "rax", "memory", "cc");
+}
+#else
 static __attribute__((noinline)) void c13_paint_stack(void) {
-    volatile uint8_t pad[8192];
-    for (size_t i = 0; i < sizeof(pad); i += 8) {
-        *(volatile uint64_t *)(pad + i) = 0;
+    volatile uint64_t pad[1024];
+    for (size_t i = 0; i < sizeof(pad) / sizeof(pad[0]); i++) {
+        pad[i] = 0;
     }
     __asm__ volatile("" : : "r"(pad) : "memory");
 }
+#endif
 
 /* ---- reference functions (documented formats, no /repo code) ------------- */
 /* sqlite4-style tagged varint length */
